@@ -335,6 +335,7 @@ type c20Case struct {
 	Nest     bool      `json:"nest,omitempty"`   // one more level of (binary op + parentheses) around the construct
 	Second   bool      `json:"second,omitempty"` // a second, different faulty statement further down the same rule
 	Tab      bool      `json:"tab,omitempty"`    // tab indentation
+	Twin     bool      `json:"twin,omitempty"`   // the same construct text occurs earlier in the rule, in a branch that never runs
 	MustCite bool      `json:"must_cite"`
 	Rule     string    `json:"rule"`
 	Primary  int       `json:"expect_line"`  // line of the first token of the reporting construct
@@ -439,8 +440,20 @@ func c20Healthy(b *c20Builder, i int) {
 	}
 }
 
+// c20Twin puts the same tokens, unmarked and on one line each, into a branch that is never taken:
+// the text of the failing construct then occurs twice in the rule, and only the later one runs.
+func c20Twin(b *c20Builder, body []c20Piece) {
+	var ps []c20Piece
+	for _, p := range body {
+		ps = append(ps, c20Piece{s: p.s, brk: p.brk})
+	}
+	b.raw(b.indent + "if false {")
+	b.add(ps, false, 0)
+	b.raw(b.indent + "}")
+}
+
 // c20Solo builds the smallest text with the fault: one rule, nothing around the construct.
-func c20Solo(f c20Fault, ctx string) (c20Case, bool) {
+func c20Solo(f c20Fault, ctx string, twin bool) (c20Case, bool) {
 	body, ok := c20Place(f, ctx, false)
 	if !ok {
 		return c20Case{}, false
@@ -450,14 +463,17 @@ func c20Solo(f c20Fault, ctx string) (c20Case, bool) {
 	if f.Class == "compound" {
 		b.raw(" ix = 1")
 	}
+	if twin {
+		c20Twin(b, body)
+	}
 	b.add(body, false, 0)
 	b.raw("end")
 	primary, accept := b.result()
-	return c20Case{Class: f.Class, Variant: f.Variant, Ctx: ctx, Solo: true, MustCite: f.MustCite, Rule: "ra",
+	return c20Case{Class: f.Class, Variant: f.Variant, Ctx: ctx, Solo: true, Twin: twin, MustCite: f.MustCite, Rule: "ra",
 		Primary: primary, Accept: accept, Nodes: b.nodes, Text: strings.Join(b.lines, "\n") + "\n"}, true
 }
 
-func c20Build(f c20Fault, ctx string, rulePos, gap int, spread, crlf, nest, second, tab bool) (c20Case, bool) {
+func c20Build(f c20Fault, ctx string, rulePos, gap int, spread, crlf, nest, second, tab, twin bool) (c20Case, bool) {
 	body, ok := c20Place(f, ctx, nest)
 	if !ok {
 		return c20Case{}, false
@@ -479,6 +495,9 @@ func c20Build(f c20Fault, ctx string, rulePos, gap int, spread, crlf, nest, seco
 		b.raw("begin")
 		b.raw(b.indent + "ix = 1")
 		b.raw(b.indent + "okf(ix)")
+		if twin {
+			c20Twin(b, body)
+		}
 		b.add(body, spread, gap)
 		if second {
 			b.raw(b.indent + "okf(3)")
@@ -496,7 +515,7 @@ func c20Build(f c20Fault, ctx string, rulePos, gap int, spread, crlf, nest, seco
 	}
 	primary, accept := b.result()
 	cs := c20Case{Class: f.Class, Variant: f.Variant, Ctx: ctx, RulePos: rulePos, Gap: gap, Spread: spread, CRLF: crlf,
-		Nest: nest, Second: second, Tab: tab, MustCite: f.MustCite, Rule: c20RuleNames[rulePos],
+		Nest: nest, Second: second, Tab: tab, Twin: twin, MustCite: f.MustCite, Rule: c20RuleNames[rulePos],
 		Primary: primary, Accept: accept, Nodes: b.nodes, Text: strings.Join(b.lines, eol) + eol}
 	return cs, true
 }
@@ -524,7 +543,10 @@ func c20Cases(thorough bool) (out []c20Case, head int) {
 	faults := c20Faults()
 	for _, ctx := range c20Ctxs {
 		for _, f := range faults {
-			if cs, ok := c20Solo(f, ctx); ok {
+			if cs, ok := c20Solo(f, ctx, false); ok {
+				out = append(out, cs)
+			}
+			if cs, ok := c20Solo(f, ctx, true); ok {
 				out = append(out, cs)
 			}
 		}
@@ -542,8 +564,13 @@ func c20Cases(thorough bool) (out []c20Case, head int) {
 					for pos := 0; pos < 3; pos++ {
 						for _, ctx := range c20Ctxs {
 							for _, f := range faults {
-								if cs, ok := c20Build(f, ctx, pos, gap, spread, crlf, ex.nest, ex.second, ex.tab); ok {
+								if cs, ok := c20Build(f, ctx, pos, gap, spread, crlf, ex.nest, ex.second, ex.tab, false); ok {
 									out = append(out, cs)
+								}
+								if gap == 1 && !crlf && (thorough || !spread) {
+									if cs, ok := c20Build(f, ctx, pos, gap, spread, crlf, ex.nest, ex.second, ex.tab, true); ok {
+										out = append(out, cs)
+									}
 								}
 							}
 						}
@@ -650,6 +677,9 @@ func c20Judge(cs c20Case) c20Verdict {
 	}
 	if cs.Solo {
 		desc = fmt.Sprintf("%s/%s in %s (one-rule text)", cs.Class, cs.Variant, cs.Ctx)
+	}
+	if cs.Twin {
+		desc += " [the same construct text also occurs earlier in the rule, in a branch that never runs]"
 	}
 	if panicked != nil {
 		// no error value exists; whether panics may escape is property C09's subject, not judged here
@@ -796,7 +826,7 @@ func c20SelfTest() {
 			codes: []string{"jx=true&&(3<SV)", "true&&(3<SV)", "(3<SV)", "3<SV"}},
 	}
 	for i, t := range tests {
-		cs, ok := c20Build(t.f, t.ctx, t.pos, t.gap, t.spread, t.crlf, t.nest, t.second, t.tab)
+		cs, ok := c20Build(t.f, t.ctx, t.pos, t.gap, t.spread, t.crlf, t.nest, t.second, t.tab, false)
 		if !ok {
 			vsched.InternalError("C20 self-test %d: combination rejected", i)
 		}
@@ -837,7 +867,7 @@ func c20SelfTest() {
 		}
 	}
 	// a fully literal golden: text and line written down by hand
-	cs, _ := c20Build(pick("divzero", "literal"), "if-body", 0, 1, true, false, false, false, false)
+	cs, _ := c20Build(pick("divzero", "literal"), "if-body", 0, 1, true, false, false, false, false, false)
 	golden := "// generated\n" + // 1
 		"rule \"ra\" \"faulty\"\n" + // 2
 		"begin\n" + // 3
@@ -957,7 +987,7 @@ func init() {
 		Rule: "one compiled three-rule text per case: fault class/variant (31: arithmetic ill-typed, division by zero, comparison/logic ill-typed, unknown/panicking/ill-typed-argument function, panicking/unknown method, three-level call, unassignable/unknown/mismatching assignment target, compound assignment, map-var on a non-container, unknown variable, forRange over a non-iterable) " +
 			"x enclosing statement kind (14: top level, assignment rhs, if body/condition, else-if condition, else body, for body/condition/init/step, forRange body, call argument, return expression, conc block; combinations the grammar cannot express are skipped) " +
 			"x faulty rule is rule 1, 2 or 3 x 0-3 blank/comment lines in front x construct (and carrier) tokens on one line or one per line x LF/CRLF; a subset of the texts also through the other compile entry points (incremental build on an empty / non-empty builder, pool construction, pool full and incremental update) and with 1-2 empty lines in front of the whole text " +
-			"plus the faulty rule alone in a one-rule text (smallest reproducers) " +
+			"plus the faulty rule alone in a one-rule text (smallest reproducers), plus layouts in which the same construct text occurs once more earlier in the rule inside a branch that never runs " +
 			"(thorough: x {plain, one more nesting level, a second later fault + tab indentation, all three}); only the faulty rule is executed; every `line N` of its error must be the start line of the reporting construct or of an enclosing assignment/call/expression node " +
 			"(and, when the message names a construct on that path by its code text, of exactly that construct), and listed fault classes must cite one; columns are not judged",
 		Assume:     []string{"injected functions and methods either return or panic", "the word 'line' does not occur in rule names, identifiers, literals or panic values of the generated programs"},
